@@ -11,6 +11,7 @@ pub mod c10;
 pub mod c11;
 pub mod c12;
 pub mod c13;
+pub mod c14;
 pub mod c18;
 pub mod c19;
 
@@ -27,6 +28,7 @@ pub fn dispatch(engine: &str, sh: &mut Shard) -> bool {
         "c11" => c11::run(sh),
         "c12" => c12::run(sh),
         "c13" => c13::run(sh),
+        "c14" => c14::run(sh),
         "c18" => c18::run(sh),
         "c19" => c19::run(sh),
         _ => return false,
